@@ -67,6 +67,8 @@ func c05RestartVsEnding(x *mc.Cell, role l2node.Role, ending string, bound int) 
 					_ = n.Mgr.CloseDataTransferChannel(ctx, chid)
 				case "reject-update":
 					_ = n.Mgr.UpdateValidationStatus(ctx, chid, datatransfer.ValidationResult{Accepted: false})
+				case "transfer-fails":
+					_ = n.H().OnChannelCompleted(chid, fmt.Errorf("transfer broke"))
 				}
 			})
 			stuck, capped := s.Run(c, 6000, 0, 0)
@@ -128,7 +130,7 @@ func c05RestartVsEnding(x *mc.Cell, role l2node.Role, ending string, bound int) 
 			if effect != "" && !restartRecorded {
 				// the state machine refused to record the restart (the channel had terminated) and the restart was
 				// honoured all the same
-				for _, p := range []string{"C05", "C04"} {
+				for _, p := range []string{"C05", "C04", "C02"} {
 					x.Violate(p, fmt.Sprintf("restart-vs-ending;honoured-on-terminated-channel;%s;ending=%s;role=%s", effect, ending, l2node.RoleNames[role]), "a restart request took effect on a channel that had already terminated when the restart was to be recorded: "+ctxs, rep)
 				}
 			}
@@ -149,10 +151,10 @@ func c05RestartVsEnding(x *mc.Cell, role l2node.Role, ending string, bound int) 
 
 func init() {
 	for _, role := range []l2node.Role{l2node.ReceivedPush, l2node.ReceivedPull} {
-		for _, ending := range []string{"peer-cancels", "close", "reject-update"} {
+		for _, ending := range []string{"peer-cancels", "close", "reject-update", "transfer-fails"} {
 			role, ending := role, ending
 			nm := fmt.Sprintf("restart-request-vs-ending/%s/%s", l2node.RoleNames[role], ending)
-			for _, p := range []string{"C05", "C04"} {
+			for _, p := range []string{"C05", "C04", "C02"} {
 				mc.Register(p, nm, "quick", func(x *mc.Cell) { c05RestartVsEnding(x, role, ending, 1) })
 				mc.Register(p, nm, "thorough", func(x *mc.Cell) { c05RestartVsEnding(x, role, ending, 2) })
 			}
